@@ -4,7 +4,9 @@ from props.apu_common import *
 ID = 'C21'
 PROP_FILE = 'Properties/C21.v'
 RULE = ('channels 1-3: every 11-bit frequency in thorough, 256 sampled (all of 2040-2047, 0, 1, 1023, 1024 + random) in '
-        'quick; all three channels triggered with the same frequency, duty index / wave position observed after '
+        'quick; both register write orders (NRx3 then NRx4, and NRx4 then NRx3 for frequencies with bit 10 set); one channel '
+        'observed per clock while the other channels are written and triggered at random machine cycles; '
+        'all three channels triggered with the same frequency, duty index / wave position observed after '
         'every clock through the audio hook for 10 square steps (40*(2048-f) clocks), and for 3 full 32-step wave '
         'periods on a subset; channel 4: every NR43 value with s <= 13 in both widths: reload value of the noise timer '
         'after the trigger and the clocks between LFSR steps over 3 periods (periods <= 16384 clocks in quick, all in '
@@ -27,6 +29,43 @@ def tone_case(f, nclk):
             w(NR13, lo), w(NR23, lo), w(NR33, lo),
             w(NR14, 0x80 | hi), w(NR24, 0x80 | hi), w(NR34, 0x80 | hi),
             cyc(1), 'apu.clk %d 7' % nclk]
+
+
+def tone_case_rev(f, nclk):
+    """high bits (with the trigger) first, low byte afterwards: NRx4 then NRx3"""
+    lo, hi = f & 0xFF, f >> 8
+    return [w(NR12, 0xF0), w(NR22, 0xF0), w(NR30, 0x80), w(NR32, 0x20),
+            w(NR14, 0x80 | hi), w(NR24, 0x80 | hi), w(NR34, 0x80 | hi),
+            w(NR13, lo), w(NR23, lo), w(NR33, lo),
+            cyc(1), 'apu.clk %d 7' % nclk]
+
+
+OTHERS = {1: [NR21, NR22, NR23, NR24, NR30, NR31, NR32, NR33, NR34, NR41, NR42, NR43, NR44, NR50, NR51],
+          2: [NR10, NR11, NR12, NR13, NR14, NR30, NR31, NR32, NR33, NR34, NR41, NR42, NR43, NR44, NR50, NR51],
+          3: [NR10, NR11, NR12, NR13, NR14, NR21, NR22, NR23, NR24, NR41, NR42, NR43, NR44, NR50, NR51]}
+
+
+def interleave_case(rng, ch, f, segments):
+    """channel ch runs undisturbed at frequency f and is observed after every clock, while the OTHER channels'
+    registers are written (triggers included) at random machine cycles in between"""
+    lo, hi = f & 0xFF, f >> 8
+    lines = [w(NR12, 0xF0), w(NR22, 0xF0), w(NR30, 0x80), w(NR32, 0x20), w(NR42, 0xF0), w(NR10, 0x00),
+             w(NR13, lo), w(NR23, lo), w(NR33, lo), w(NR14, 0x80 | hi), w(NR24, 0x80 | hi), w(NR34, 0x80 | hi),
+             w(NR44, 0x80), cyc(1)]
+    sel = {1: 1, 2: 2, 3: 4}[ch]
+    for _ in range(segments):
+        lines.append('apu.clk %d %d' % (4 * rng.randrange(1, 60), sel))
+        for _ in range(rng.randrange(1, 3)):
+            a = rng.choice(OTHERS[ch])
+            v = rng.choice([0x80, 0x87, 0xC0, 0x86, rng.randrange(256)]) if a in (NR14, NR24, NR34, NR44) else \
+                rng.choice([0xF0, 0x80, 0x08, rng.randrange(256)])
+            if a == NR10:
+                v = 0x00                  # keep channel 1's sweep idle (it would change f)
+            lines.append(w(a, v))
+        lines.append(cyc(rng.randrange(1, 4)))
+    lines.append('apu.clk 64 %d' % sel)
+    lines.append('apu.st')
+    return lines
 
 
 def noise_case(v, run_clocks):
@@ -55,6 +94,18 @@ def generate(rng, tier):
     full = [2047, 2046, 2040, 2000, 1900, 1792, 1536] if tier == 'quick' else list(range(0, 2048, 16)) + [2047, 2046]
     for f in full:
         cases.append(('F%d' % f, tone_case(f, 3 * 64 * (2048 - f) + 8)))
+    # both write orders: NRx4 (high bits, trigger) first and NRx3 afterwards, for frequencies with bit 10 set too
+    revs = ([0x400, 0x401, 0x4FF, 0x5A7, 0x6D6, 0x700, 0x7FE, 0x7FF, 0x3FF, 0x2A5, 0x100, 0x0FF] if tier == 'quick'
+            else list(range(0, 2048, 37)) + [0x400, 0x7FF, 0x3FF])
+    for f in revs:
+        cases.append(('R%d' % f, tone_case_rev(f, min(40 * (2048 - f) + 8, 6000))))
+    # one channel observed per clock while the others are written / triggered at random cycles
+    nint = 0
+    for k in range(36 if tier == 'quick' else 600):
+        ch = 1 + k % 3
+        f = rng.choice([0x700, 0x7C0, 0x7FF, 0x7F0, 0x600, rng.randrange(0x600, 0x800)])
+        cases.append(('I%d_%d_%d' % (ch, f, k), interleave_case(rng, ch, f, rng.randrange(4, 12))))
+        nint += 1
     nnoise = 0
     for v in range(256):
         if (v >> 4) > 13:
@@ -69,7 +120,8 @@ def generate(rng, tier):
     cases.append(('lfsr15r3', [w(NR42, 0xF0), w(NR43, 0x13), w(NR44, 0x80), cyc(1), 'apu.lfsrper 200 1000000']))
     cases.append(('lfsr7r1', [w(NR42, 0xF0), w(NR43, 0x29), w(NR44, 0x80), cyc(1), 'apu.lfsrper 300 1000000']))
     info = dict(exhaustive=(tier == 'thorough'),
-                input_distribution=dict(frequencies=len(freqs), full_period_frequencies=len(full), nr43_values=nnoise,
+                input_distribution=dict(frequencies=len(freqs), full_period_frequencies=len(full), reversed_write_order=len(revs),
+                                        interleaved_cases=nint, nr43_values=nnoise,
                                         lfsr_period_runs=4),
                 samples=[dict(case=cases[0][0], script=cases[0][1])])
     return cases, info
@@ -134,6 +186,48 @@ def check_tone(f, line):
     return None
 
 
+def check_rev(f, line):
+    """NRx4 then NRx3: after the first step every later step interval is the documented one"""
+    pts = parse_clk(line)
+    P, Q = 4 * (2048 - f), 2 * (2048 - f)
+    for idx, per, name in ((1, P, 'channel 2'), (2, Q, 'channel 3')):
+        steps = [k for (k, v), (_, pv) in zip(pts[1:], pts[:-1]) if v[idx] != pv[idx]]
+        gaps = [b - a for a, b in zip(steps[1:], steps[2:])]
+        if any(g != per for g in gaps):
+            return 'f=%03X written high-then-low: %s steps %s clocks apart, documented %d' % (f, name, sorted(set(gaps)), per)
+    return None
+
+
+def check_interleave(cid, lines, impl):
+    """the observed channel was triggered once and never written again: its position must be the closed form in the
+    total number of clocks elapsed (4 per machine cycle), whatever happened to the other channels"""
+    _, f, _ = cid[1:].split('_')
+    ch, f = int(cid[1]), int(f)
+    per, mod = (4 * (2048 - f), 8) if ch in (1, 2) else (2 * (2048 - f), 32)
+    clocks = 0
+    out = iter(impl)
+    first = True
+    for l in lines:
+        if l.startswith('apu.cyc'):
+            next(out)
+            if not first:
+                clocks += 4 * int(l.split()[1])
+            first = False
+        elif l.startswith('apu.clk'):
+            pts = parse_clk(next(out))
+            n = int(l.split()[1])
+            for k, v in pts:
+                tot = clocks + k
+                want = ((tot - 1) // per) % mod if tot >= 1 else 0
+                if v[0] != want:
+                    return ('channel %d at f=%03X: position %d after %d clocks (other channels written meanwhile), '
+                            'documented %d' % (ch, f, v[0], tot, want))
+            clocks += n
+        elif l.startswith('apu.st'):
+            next(out)
+    return None
+
+
 def check_noise(v, impl):
     p = noise_period(v)
     t = parse_clk(impl[1])
@@ -160,6 +254,10 @@ def extra(check, impl_cases, model_cases, cases):
         msg = None
         if cid[0] in 'fF' and cid[1:].isdigit():
             msg = check_tone(int(cid[1:]), impl[1])
+        elif cid[0] == 'R' and cid[1:].isdigit():
+            msg = check_rev(int(cid[1:]), impl[1])
+        elif cid[0] == 'I':
+            msg = check_interleave(cid, lines, impl)
         elif cid[0] == 'n':
             msg = check_noise(int(cid[1:], 16), impl)
         elif cid.startswith('lfsr'):
